@@ -3,6 +3,7 @@ import Ampy.Lemmas.Screen
 import Ampy.Lemmas.Run
 import Ampy.Lemmas.Domain
 import Ampy.Lemmas.EndToEnd
+import Ampy.Lemmas.Selection
 /-!
 # C08 — valid input never crashes the chain; failures are AmpycloudError only  (partial)
 
@@ -92,5 +93,34 @@ theorem C08_metar_total {α} [DecidableEq α] (K : Kern) (P : PPrms α) (checked
   obtain ⟨c, hc⟩ := run_total K P hA.kern hA.prms hA3 checked
   obtain ⟨t, _, _, hm⟩ := run_msg K P checked hA c hc .layers
   exact ⟨c, _, hc, hm⟩
+
+/-! ### Assumption A3 as a theorem, and exactly where it can fail -/
+
+/-- In mode `delta` (the default) the empty-component penalty of `ncomp_from_gmm` does its job — the selected mixture
+has no unpopulated component (assumption A3 of the totality theorems) — for every kernel answer of the documented
+shape whose scores are non-negative, and every `delta_mul_gain ≤ 1`. -/
+theorem C08_selected_populated_delta {α} (K : Kern) (P : PPrms α) (q : Rat) (hK : KernOK K q)
+    (hmode : P.gmmMode = "delta") (hg1 : P.gmmGain ≤ 1)
+    (hscore : ∀ s vals n, 0 ≤ (K.gmm s vals n).score) :
+    SelectedPopulated K P :=
+  selectedPopulated_of_delta K P q hK hmode hg1 hscore
+
+/-- … and `run` is total under those conditions, with no separate assumption about the selected mixture. -/
+theorem C08_run_total_delta {α} [DecidableEq α] (K : Kern) (P : PPrms α) (hK : KernOK K P.basePerc) (hP : PrmsOK P)
+    (hmode : P.gmmMode = "delta") (hg1 : P.gmmGain ≤ 1)
+    (hscore : ∀ s vals n, 0 ≤ (K.gmm s vals n).score) (checked : List (Hit α)) :
+    ∃ c, run K P checked = .ok c :=
+  run_total K P hK hP (selectedPopulated_of_delta K P P.basePerc hK hmode hg1 hscore) checked
+
+/-- Neither condition can be dropped (the penalty is `max(scores) + 1`, the test `score < gain * best`): with all
+scores negative and close, gain 0.95 selects the unpopulated mixture; so does a gain above 1 with positive scores.
+This is a property of the code as it is (not exhibited with the real library: DESIGN.md 11.12). -/
+theorem C08_penalty_limits :
+    (bestDelta (boostScores Sel.witnessNeg) (95 / 100) = 1 ∧
+      ((Sel.witnessNeg[1]?).map fun f => decide ((f.labels.eraseDups).length < 1 + 1)) = some true) ∧
+    (bestDelta (boostScores Sel.witnessGain) 2 = 1 ∧
+      ((Sel.witnessGain[1]?).map fun f => decide ((f.labels.eraseDups).length < 1 + 1)) = some true) :=
+  ⟨⟨bestDelta_boosted_witness_negative_scores.1, bestDelta_boosted_witness_negative_scores.2.1⟩,
+   ⟨bestDelta_boosted_witness_gain_gt_one.1, bestDelta_boosted_witness_gain_gt_one.2.1⟩⟩
 
 end Ampy
